@@ -1,4 +1,5 @@
 """anchors shared by the rule modules (public API paths; private helpers are found through calls)"""
+import re as _re
 from .. import facts, absint, effects, cfg as cfgmod, forms
 
 S = "vaporetto::sentence::Sentence"
@@ -149,9 +150,6 @@ def iterator_names(b, outs):
     return names, origin
 
 
-import re as _re
-
-
 def renamer(names):
     def rn(s):
         def sub(m):
@@ -173,7 +171,30 @@ def show_arg(nz, a):
     return str(a)[:100]
 
 
-def backward_slice(b, local, depth=14):
+def body_fields(cb):
+    out = set()
+    def scan(p):
+        for e in p["proj"]:
+            if isinstance(e, dict) and "field" in e:
+                out.add("%s.%s" % (e.get("of", ""), e["field"]))
+    for blk in cb.blocks:
+        if blk["cleanup"]:
+            continue
+        for s in blk["stmts"]:
+            scan(s["place"])
+            rv = s.get("rv", {})
+            if "place" in rv:
+                scan(rv["place"])
+            for k in ("a", "b"):
+                o = rv.get(k)
+                if isinstance(o, dict):
+                    p = o.get("copy") or o.get("move")
+                    if p:
+                        scan(p)
+    return out
+
+
+def backward_slice(b, local, depth=14, w=None):
     """static backward slice through single-definition temporaries: returns (callee names, field names, param ids)
     that the value of `local` is computed from (used only to classify the role of a value)"""
     defs = {}
@@ -221,6 +242,10 @@ def backward_slice(b, local, depth=14):
                     for f in rv["fields"]:
                         for y in op_locals(f):
                             visit(y, d + 1)
+                    if rv["k"] == "closure" and w is not None:
+                        cb = w.body(rv["fn"])
+                        if cb is not None:
+                            fields.update(body_fields(cb))
             else:
                 t = x
                 c = cfgmod.callee(t)
@@ -229,6 +254,16 @@ def backward_slice(b, local, depth=14):
                 for a in t["args"]:
                     for y in op_locals(a):
                         visit(y, d + 1)
+                    if w is not None and "const" in a:
+                        z = a["const"].get("zst", "")
+                        m = _re.search(r"\{closure@", z) if isinstance(z, str) else None
+                        if m:
+                            # non-capturing closure passed by value: find it among this function's closures
+                            for k, bs in w.bodies.items():
+                                if k.startswith(b.fn + "::{closure") and "#promoted" not in k:
+                                    sp = bs[0].span.split(":")
+                                    if sp[0].split("/")[-1] in z and (":" + sp[-1] + ":") in z:
+                                        fields.update(body_fields(bs[0]))
     visit(local, 0)
     return callees, fields, params
 
